@@ -38,7 +38,8 @@ SimNext == /\ Spend
 SimSpec == Init /\ [][SimNext]_vars
 
 CONSTANT SeedLevels
-InitSeeds == doc \in Seeds /\ budget = SeedLevels
+InitSeeds == (doc \in Seeds \cup (IF WithUnsupported THEN SeedsUns ELSE {}) /\ budget = SeedLevels)
+             \/ (doc \in Seeds0 /\ budget = 0)
 SeedSpec == InitSeeds /\ [][Next]_vars
 
 Idx == 1..NValues
